@@ -130,9 +130,63 @@ macro "step_tac" : tactic =>
   `(tactic| ((simp [Builtin.step, Val.literalable, steprel_ite] <;> (try simp [StepRel]) <;> (try split) <;> (try intros) <;>
       repeat (first | assumption | constructor)) <;> done))
 
+theorem VR_cell : ∀ (v v' : Val), VR code v v' → v.cellToks = v'.cellToks
+  | .int _, _, h => by cases h; rfl
+  | .str _, _, h => by cases h; rfl
+  | .query _, _, h => by cases h; rfl
+  | .other _ _, _, h => by cases h; rfl
+  | .pair a b, _, h => by
+    cases h with
+    | pair h1 h2 => simp [Val.cellToks, VR_cell a _ h1, VR_cell b _ h2]
+  | .builtin _, _, h => by cases h; rfl
+  | .closure _ _ _, _, h => by
+    have := VR_arity h
+    cases h; simp [Val.cellToks, Val.arity]
+  | .lam _ _, _, h => by cases h
+  | .part _ _ _, _, h => by
+    have := VR_arity h
+    cases h; simp only [Val.cellToks]; rw [this]
+
+theorem VRs_collText : ∀ {ps ps' : List Val}, VRs code ps ps' →
+    collText ps = collText ps' ∧ ps.all isPairVal = ps'.all isPairVal
+  | [], _, h => by cases h; exact ⟨rfl, rfl⟩
+  | p :: ps, _, h => by
+    cases h with
+    | cons h1 h2 =>
+      obtain ⟨e1, e2⟩ := VRs_collText h2
+      cases h1 with
+      | pair ha hb => simp [collText, isPairVal, VR_cell _ _ ha, VR_cell _ _ hb, e1, e2]
+      | _ => simp_all [collText, isPairVal]
+
+theorem step_collection (ps : List Val) :
+    Builtin.step .collection ps =
+      if ps.all isPairVal then .value (.other "coll" ("_".intercalate (collText ps))) else .fail := by
+  cases ps <;> simp [Builtin.step]
+
+theorem step_call_cons (f : Val) (xs : List Val) : Builtin.step .call (f :: xs) = .tail f xs := by
+  simp [Builtin.step]
+
+theorem step_call_nil : Builtin.step .call [] = .fail := by simp [Builtin.step]
+
+theorem step_rel_collection {cs cs' : List Val} (h : VRs code cs cs') :
+    StepRel code (Builtin.step .collection cs) (Builtin.step .collection cs') := by
+  obtain ⟨e1, e2⟩ := VRs_collText h
+  rw [step_collection, step_collection, e1, e2]
+  split <;> simp [StepRel]
+  exact .other _ _
+
+theorem step_rel_call {cs cs' : List Val} (h : VRs code cs cs') :
+    StepRel code (Builtin.step .call cs) (Builtin.step .call cs') := by
+  cases h with
+  | nil => simp [step_call_nil, StepRel]
+  | cons h1 h2 => simp only [step_call_cons, StepRel]; exact ⟨h1, h2⟩
+
 theorem step_rel {b : Builtin} {cs cs' : List Val} (h : VRs code cs cs') :
     StepRel code (b.step cs) (b.step cs') := by
-  cases b <;> rcases h with _ | ⟨h1, _ | ⟨h2, _ | ⟨h3, _ | ⟨h4, h5⟩⟩⟩⟩ <;>
+  cases b
+  case collection => exact step_rel_collection h
+  case call => exact step_rel_call h
+  all_goals rcases h with _ | ⟨h1, _ | ⟨h2, _ | ⟨h3, _ | ⟨h4, h5⟩⟩⟩⟩ <;>
     first
     | step_tac
     | (cases h1 <;> first
@@ -161,8 +215,8 @@ theorem convert_func' {n : Nat} {v c : Val} (h : convert (.func n) v = .ok c) : 
   · cases h'
 
 theorem step_tail_callable' {b : Builtin} {args cs : List Val} {g : Val} {xs : List Val}
-    (hc : convertAll b.params args = .ok cs) (h : b.step cs = .tail g xs) : g.isCallable = true := by
-  have key : ∀ t ts, b.params = t :: ts → (t = .callable ∨ ∃ n, t = .func n) →
+    (hc : convertAll (b.paramsAt args.length) args = .ok cs) (h : b.step cs = .tail g xs) : g.isCallable = true := by
+  have key : ∀ t ts, b.paramsAt args.length = t :: ts → (t = .callable ∨ ∃ n, t = .func n) →
       ∀ c cs', cs = c :: cs' → c.isCallable = true := by
     intro t ts hp ht c cs' hcs
     rw [hp] at hc
